@@ -136,8 +136,11 @@ def observe(arg):
                 names = z.getnames()
                 z.extractall(path=dest)
             kinds = []
+            occ = {}
             for n in names:
-                p = os.path.join(dest, n)
+                k = occ.get(n, 0)      # later members of the same name are extracted as name_0, name_1, ...
+                occ[n] = k + 1
+                p = os.path.join(dest, n if k == 0 else "%s_%d" % (n, k - 1))
                 kinds.append("dir" if os.path.isdir(p) and not os.path.islink(p) else
                              "file:%d" % os.path.getsize(p) if os.path.isfile(p) else "missing")
             out["extract_path"] = ["ok", kinds]
@@ -244,6 +247,8 @@ def case_ref(rng, special=None):
             members.insert(rng.randrange(len(members) + 1),
                            {"name": "sub%d/" % len(members), "kind": "dir", "data": b"", "mtime": c06.FT, "attr": 0x10,
                             "ctime": None, "atime": None})
+        if special == "nameless":
+            members = [m for m in members if m["kind"] == "file"][:1] or members[:1]
         if special == "dupnames" and len(members) >= 2:
             members[-1]["name"] = members[0]["name"]
         lay = c06.gen_layout(rng, members, None)
@@ -251,7 +256,21 @@ def case_ref(rng, special=None):
             lay["crc"] = "substream"
         if c06.classify(members, lay):
             continue
+        if special == "nameless":
+            lay["header"] = "raw"
         data = refwriter.write_archive(members, lay)
+        if special == "nameless":
+            # remove the NAME property: py7zr then presents every entry under the stem of the archive's file name
+            body = b"\x00" + b"".join(refwriter.utf16(m["name"]) for m in members)
+            rec = refwriter.prop(0x11, body)
+            ofs, size, _ = struct.unpack("<QQL", data[12:32])
+            h = data[32 + ofs: 32 + ofs + size]
+            assert h.count(rec) == 1
+            h = h.replace(rec, b"")
+            start = struct.pack("<QQL", ofs, len(h), zlib.crc32(h))
+            data = refwriter.MAGIC + b"\x00\x04" + struct.pack("<L", zlib.crc32(start)) + start + data[32:32 + ofs] + h
+            for m in members:
+                m["name"] = None
         parts = lay.get("folders") or []
         methods = sorted(set(sum([REF_CHAIN_NAMES[c] for c in (lay.get("coders") or [])], [])))
         return {"source": "ref", "archive": data.hex(), "password": None, "aes": False, "methods": methods,
@@ -308,7 +327,7 @@ def gen_cases(rng, tier):
     # (b) reference-written healthy layouts
     for i in range(110 if quick else 2500):
         cases.append(case_ref(rng))
-    for sp in ["nostreams", "empty", "slashdir", "dupnames", "nostreams", "slashdir", "dupnames"]:
+    for sp in ["nostreams", "empty", "slashdir", "dupnames", "nostreams", "slashdir", "dupnames", "nameless"]:
         cases.append(case_ref(rng, sp))
     for i, c in enumerate(cases):
         c["idx"] = i
@@ -349,7 +368,8 @@ def evaluate(case, obs, truth, model):
     if obs.get("open", ["?"])[0] != "ok":
         v("archive cannot be opened: %r" % (obs.get("open"),), {"kind": "open"})
         return bad
-    tm = truth["members"]
+    stem = os.path.splitext(os.path.basename(case["fname"]))[0]
+    tm = [[stem if m[0] is None else m[0]] + list(m[1:]) for m in truth["members"]]
     tnames = [m[0] for m in tm]
     # ---- names: stored order, the same everywhere
     for key, got in (("getnames", obs["getnames"]), ("namelist", obs["namelist"]), ("list", [r[0] for r in obs["list"]]),
@@ -382,7 +402,7 @@ def evaluate(case, obs, truth, model):
             made = xp[1][i]
             if (made == "dir") != isdir_listed:
                 v("member %r: listed is_directory=%r, extraction created %s" % (name, isdir_listed, made), {"kind": "directory"})
-            if made.startswith("file:") and int(made[5:]) != frow[1] and tnames.count(name) == 1:
+            if made.startswith("file:") and int(made[5:]) != frow[1]:
                 v("member %r: listed size %r, extracted file has %s bytes" % (name, frow[1], made[5:]), {"kind": "size"})
         # sizes and CRCs against the extracted bytes
         got = None
@@ -419,18 +439,19 @@ def evaluate(case, obs, truth, model):
     listed = set(tnames)
     for n, idx, fn in obs["getinfo"]:
         stripped = n[:-1] if n.endswith("/") else n
+        # acceptable answers: the first member named exactly n, or the first member named n without one trailing slash
+        accept = [(tnames.index(x), x) for x in (n, stripped) if x in listed]
         if idx == "exc":
             v("getinfo(%r) raises %s" % (n, fn), {"kind": "getinfo"})
-        elif n in listed and idx is None:
-            keys = {"kind": "getinfo-name-ends-with-slash"} if n.endswith("/") else {"kind": "getinfo"}
-            v("getinfo(%r) raises KeyError although %r is listed by getnames()" % (n, n), keys)
-        elif stripped in listed:
-            if idx is None:
+        elif accept and idx is None:
+            if n in listed and stripped not in listed:
+                v("getinfo(%r) raises KeyError although %r is listed by getnames()" % (n, n), {"kind": "getinfo-name-ends-with-slash"})
+            else:
                 v("getinfo(%r) raises KeyError although %r is listed" % (n, stripped), {"kind": "getinfo"})
-            elif fn != stripped or idx != tnames.index(stripped):
-                v("getinfo(%r) returns member %r (#%r), expected the first member named %r (#%d)" % (
-                    n, fn, idx, stripped, tnames.index(stripped)), {"kind": "getinfo"})
-        elif idx is not None:
+        elif accept and (idx, fn) not in accept:
+            v("getinfo(%r) returns member %r (#%r), expected the first member named %r (#%d)" % (
+                n, fn, idx, accept[0][1], accept[0][0]), {"kind": "getinfo"})
+        elif not accept and idx is not None:
             v("getinfo(%r) returns member %r although no such name is listed" % (n, fn), {"kind": "getinfo"})
     # ---- archiveinfo
     ai = obs["archiveinfo"]
@@ -580,24 +601,29 @@ def unit_checks(ctx, rep, rng, tier):
                           {"kind": "unit", "fn": "get_methods_names", "coders": [[c["method"].hex() for c in cs] for cs in cl]},
                           concrete=False, match_keys={"kind": "correspondence", "fn": "get_methods_names"})
             break
+        stop = False
         for cs, ct in zip(cl, tree):
             try:
                 impl_b = ("ok", SupportedMethods.needs_password(cs))
             except Exception as e:  # noqa
                 impl_b = ("err", type(e).__name__)
+            # the truth: exactly when a 7zAES coder is present
+            want = any(c["method"] == b"\x06\xf1\x07\x01" for c in cs)
+            if impl_b != ("ok", want):
+                rep.violation("SupportedMethods.needs_password(%r) = %r; a 7zAES coder is %s" % (
+                    [c["method"].hex() for c in cs], impl_b, "present" if want else "absent"),
+                    {"kind": "unit", "fn": "needs_password", "coders": [c["method"].hex() for c in cs]},
+                    match_keys={"kind": "needs-password", "level": "coders"})
+                stop = True
             r = model.call("coders_need_password", ct)
             mod_b = ("ok", r[1] == 1) if r[0] == 0 else ("err", r[1])
             if impl_b[0] != mod_b[0] or (impl_b[0] == "ok" and impl_b[1] != mod_b[1]):
                 rep.violation("model/implementation disagree: SupportedMethods.needs_password(%r): impl %r model %r" % (cs, impl_b, mod_b),
                               {"kind": "unit", "fn": "needs_password", "coders": [c["method"].hex() for c in cs]},
                               concrete=False, match_keys={"kind": "correspondence", "fn": "needs_password"})
-                return
-            # the truth: exactly when a 7zAES coder is present
-            if impl_b[0] == "ok" and impl_b[1] != any(c["method"] == b"\x06\xf1\x07\x01" for c in cs):
-                rep.violation("SupportedMethods.needs_password(%r) = %r" % ([c["method"].hex() for c in cs], impl_b[1]),
-                              {"kind": "unit", "fn": "needs_password", "coders": [c["method"].hex() for c in cs]},
-                              match_keys={"kind": "needs-password", "level": "coders"})
-                return
+                stop = True
+        if stop:
+            break
     for s in ["", "/", "//", "a", "a/", "a//", "a/b", "a/b/", "/a", "ü/", "\U0001F600/", "a\\", "a/ "]:
         rep.count(("slash", s))
         mod = tree_name(model.call("remove_trailing_slash", names_tree(s)))
@@ -657,10 +683,11 @@ def run(ctx):
                               match_keys={"kind": "oracle"})
                 t = None
         truths.append(t)
-        c["probes"] = probes_for([m[0] for m in t["members"]]) if t else []
+        c["probes"] = probes_for([m[0] if m[0] is not None else "arc%d" % c["idx"] for m in t["members"]]) if t else []
     with concurrent.futures.ThreadPoolExecutor(max_workers=min(12, os.cpu_count() or 4)) as ex:
         observations = list(ex.map(observe_case, cases))
     stream_results = {}
+    reported = {}
     for c, t, obs in zip(cases, truths, observations):
         if t is None:
             continue
@@ -679,12 +706,13 @@ def run(ctx):
         except Exception as e:  # noqa
             import traceback
             bad = [("harness error while evaluating %s: %s" % (c["desc"], traceback.format_exc()[-800:]), {"kind": "harness"}, False)]
-        seen = set()
         for what, keys, concrete in bad:
+            # one report (and one replay) per failing shape; further archives of the same shape are only counted
             k = tuple(sorted(keys.items()))
-            if k in seen:
+            if k in reported:
+                reported[k] += 1
                 continue
-            seen.add(k)
+            reported[k] = 1
             rep.violation("%s [%s]" % (what, c["desc"]), replay_dict(c, t, keys.get("kind")), concrete=concrete, match_keys=keys)
         if c["idx"] % 40 == 0:
             rep.sample({"desc": c["desc"], "names": [m[0] for m in t["members"]][:6], "archiveinfo": obs.get("archiveinfo")})
@@ -693,6 +721,7 @@ def run(ctx):
     # archiveinfo() on an archive opened from a nameless stream: `assert fname is not None`.  C10 quantifies over
     # archives, not over the way they are opened; recorded here, not judged.
     rep.extra["archiveinfo_on_nameless_stream"] = stream_results
+    rep.extra["archives_per_failing_shape"] = {repr(dict(k)): n for k, n in reported.items()}
     rep.extra["note_list_timestamp"] = ("list() carries the previous member's timestamp over to a member without one "
                                         "(lastmodified is not reset per iteration); modelled (list_loop), not part of C10's statement")
 
@@ -703,6 +732,16 @@ def replay(d):
     sys.path.insert(0, os.path.dirname(os.path.dirname(os.path.abspath(__file__))))
     import vlib
     if r.get("kind") == "unit":
+        from py7zr.compressor import SupportedMethods, get_methods_names
+        if r.get("fn") == "needs_password":
+            cs = [{"method": bytes.fromhex(m), "numinstreams": 1, "numoutstreams": 1, "properties": None} for m in r["coders"]]
+            try:
+                got = SupportedMethods.needs_password(cs)
+            except Exception as e:  # noqa
+                got = type(e).__name__
+            want = any(c["method"] == b"\x06\xf1\x07\x01" for c in cs)
+            print("SupportedMethods.needs_password(%r) = %r, 7zAES coder present: %r" % (r["coders"], got, want))
+            return 0 if got == want else 1
         print(r)
         return 2
     case = {"archive": r["archive"], "password": r["password"], "fname": r["fname"], "probes": r["probes"], "aes": r["aes"],
